@@ -37,7 +37,7 @@ def plan(tier, seed):
 def minimums(tier):
     return {"agree.checked": 2000, "order.checked": 2000, "reverse.checked": 400, "extension.checked": 400,
             "fields.compared": 20000, "hex.checked": 300, "src.compared": 2000, "fresh.process_runs": 40,
-            "dir.with_pel_beyond_16k": 40}
+            "dir.with_pel_beyond_16k": 40, "dir.with_symlinked_pel": 30}
 
 
 def rand_sel(rng):
@@ -72,6 +72,15 @@ def run(spec, ctx):
             big.data = big.pel.encode()
             ctx.count("dir.with_pel_beyond_16k")
         d.extend(ents)
+        if ents and i % 4 == 2:
+            # one PEL present as a symbolic link to a regular file kept elsewhere (an archive / store directory): every mode
+            # sees it, like the other files
+            e = rng.choice(ents)
+            store = os.path.join(root, "store%d" % i)
+            os.makedirs(store, exist_ok=True)
+            os.replace(e.path, os.path.join(store, "kept_" + e.name))
+            os.symlink(os.path.join(store, "kept_" + e.name), e.path)
+            ctx.count("dir.with_symlinked_pel")
         if rng.random() < 0.3 and ents:      # a nested directory with more PELs must be ignored
             sub = dirs.gen_dir_model(rng, u, 2, reg=reg)
             for e in sub:
